@@ -117,7 +117,27 @@ inductive Op
   | dvGet (k : Kind) (off : Nat) (le : Bool)
   | dvSet (k : Kind) (off : Nat) (le : Bool) (x : Val)
   | detach
+  | copy (dst src off : Nat)      -- `views[dst].set(views[src], off)`
   deriving Repr
+
+/-- the double bit pattern of an integer of magnitude below 2^53 -/
+def intToF64Bits (z : Int) : Nat :=
+  if z == 0 then 0 else
+  let m := z.natAbs
+  let e := Nat.log2 m
+  let frac := if e ≤ 52 then m * 2 ^ (52 - e) - 2 ^ 52 else 0
+  (if z < 0 then 2 ^ 63 else 0) + (e + 1023) * 2 ^ 52 + frac
+
+/-- the value a raw element denotes, as the JsValue a script would read -/
+def rawToVal (k : Kind) (raw : Nat) : Val :=
+  match k with
+  | .i8 => .num (intToF64Bits (wrapS 8 raw))
+  | .i16 => .num (intToF64Bits (wrapS 16 raw))
+  | .i32 => .num (intToF64Bits (wrapS 32 raw))
+  | .u8 | .u8c | .u16 | .u32 => .num (intToF64Bits raw)
+  | .f64 => .num raw
+  | .bi64 => .big (wrapS 64 raw)
+  | .bu64 => .big raw
 
 def hex2 (n : Nat) : String :=
   let s := String.ofList (Nat.toDigits 16 n)
@@ -192,5 +212,26 @@ def step (s : St) : Op → St × String
       else if off + k.size > s.buf.bytes.length then (s, "RangeError")
       else ({ s with buf := { s.buf with bytes := writeAt s.buf.bytes off (encode k.size le raw) } }, "ok")
   | .detach => ({ s with buf := { s.buf with bytes := [], detached := true } }, "ok")
+  | .copy di si off =>
+    match s.views[di]?, s.views[si]? with
+    | some d, some sv =>
+      -- %TypedArray%.prototype.set ( typedArray, offset ): SetTypedArrayFromTypedArray
+      if viewOOB s.buf d then (s, "TypeError")
+      else if viewOOB s.buf sv then (s, "TypeError")
+      else
+        let dlen := viewLength s.buf d
+        let slen := viewLength s.buf sv
+        if slen + off > dlen then (s, "RangeError")                      -- step 16
+        else if d.kind.isBig != sv.kind.isBig then (s, "TypeError")      -- step 17 (content types differ)
+        else
+          -- same buffer: the source bytes are read before any write (clone), so overlap is harmless
+          let srcRaw := (List.range slen).map (fun i => decodeLE (readAt s.buf.bytes (sv.byteOffset + i * sv.kind.size) sv.kind.size))
+          let conv := srcRaw.map (fun r => if sv.kind == d.kind then some r else toRaw d.kind (rawToVal sv.kind r))
+          let (mem, _) := conv.foldl (fun (acc : List Nat × Nat) r =>
+            match r with
+            | some raw => (writeAt acc.1 (d.byteOffset + (off + acc.2) * d.kind.size) (encodeLE d.kind.size raw), acc.2 + 1)
+            | none => (acc.1, acc.2 + 1)) (s.buf.bytes, 0)
+          ({ s with buf := { s.buf with bytes := mem } }, "ok")
+    | _, _ => (s, "bad-op")
 
 end BoaVerif.C15
